@@ -525,3 +525,32 @@ package actions
 //@                 wake_on_commit(dlTopic.Edges.Subscriptions[k].ID) && (exists j int :: 0 <= j && j < len(dlc) && cb.deliveries.subscription_id(dlc[j]) == dlTopic.Edges.Subscriptions[k].ID)
 //@     invariant wake_kept: forall x uuid.UUID :: old(wake_on_commit(x)) ==> wake_on_commit(x)
 //@     invariant !dbfailed() || old(dbfailed())
+
+// ---- pull. C02 soundness, C01 completeness of the candidate query, C05 blocked-predecessor filter:
+// the candidates are open, unexpired, due deliveries of exactly this subscription (unblocked when ordered),
+// at most MaxMessages of them, pairwise distinct, with their message loaded; if fewer than MaxMessages are
+// returned then every such delivery is returned.
+//@ func (*GetSubscriptionMessages).queryAndLockDeliveriesOnce(a, ctx, tx, sub) (result, err)
+//@   property C02
+//@   uses tables
+//@   requires a != nil && tx != nil && sub != nil && deliveries_wf()
+//@   ensures sound: err == nil ==> exists n1 clock :: exists n2 clock :: n1 <= n2 && (forall k int :: {result[k]} 0 <= k && k < len(result) ==>
+//@             result[k] != nil && deliveries.exists(result[k].ID) && deliveries.subscription_id(result[k].ID) == sub.ID &&
+//@             deliveries.completed_at$null(result[k].ID) && deliveries.expires_at(result[k].ID) > n2 && deliveries.attempt_at(result[k].ID) <= n1 &&
+//@             (sub.OrderedDelivery ==> unblocked(result[k].ID, n2)))
+//@   ensures rows_loaded: err == nil ==> (forall k int :: {result[k]} 0 <= k && k < len(result) ==>
+//@             result[k].Attempts == deliveries.attempts(result[k].ID) && result[k].SubscriptionID == deliveries.subscription_id(result[k].ID) &&
+//@             result[k].MessageID == deliveries.message_id(result[k].ID))
+//@   ensures message_loaded: err == nil ==> (forall k int :: {result[k]} 0 <= k && k < len(result) ==>
+//@             result[k].Edges.Message != nil && result[k].Edges.Message.ID == deliveries.message_id(result[k].ID) && messages.exists(deliveries.message_id(result[k].ID)))
+//@   ensures message_content: err == nil ==> (forall k int :: {result[k]} 0 <= k && k < len(result) ==>
+//@             result[k].Edges.Message.Payload.base == messages.payload(deliveries.message_id(result[k].ID)) &&
+//@             result[k].Edges.Message.Attributes == msg_attrs(deliveries.message_id(result[k].ID)) &&
+//@             result[k].Edges.Message.PublishedAt == messages.published_at(deliveries.message_id(result[k].ID)))
+//@   ensures bounded: err == nil ==> len(result) <= a.params.MaxMessages
+//@   ensures distinct: err == nil ==> (forall k1 int, k2 int :: 0 <= k1 && k1 < k2 && k2 < len(result) ==> result[k1].ID != result[k2].ID)
+//@   ensures complete: [C01] err == nil && len(result) < a.params.MaxMessages ==> exists n1 clock :: exists n2 clock :: (forall d Id ::
+//@             deliveries.exists(d) && deliveries.subscription_id(d) == sub.ID && deliveries.completed_at$null(d) && deliveries.expires_at(d) > n2 && deliveries.attempt_at(d) <= n1 &&
+//@             (sub.OrderedDelivery ==> unblocked(d, n2)) ==> (exists k int :: 0 <= k && k < len(result) && result[k].ID == d))
+//@   ensures no_swallowed_failure: [C09] dbfailed() && !old(dbfailed()) ==> err != nil
+//@   modifies S:dbfailed
